@@ -307,4 +307,10 @@ theorem accepted_tags_are_supported_tags (TokP : Tok → Prop) (name : Bytes) (a
   rw [← hname]
   exact listed_tags_are_supported_tags _ live_table_admits_exactly_the_supported_tags d hd slot hs htag _ hmem
 
+/-- **each tag takes exactly the parameter the frozen vocabulary gives it** — the kinds admitted (string / number / string list)
+    and, where the RFCs close it, the value set (comparators, relational operators); a value added to or lost from such a list,
+    a parameter that wandered to another tag, a type widened or narrowed breaks this obligation -/
+theorem live_table_gives_tags_their_supported_parameters : Spec.ParamsExactly Generated.builtinTable = true := by
+  decide +kernel
+
 end C01
